@@ -299,3 +299,96 @@ func applyFinXForm(db *gorm.DB, f *Fin) (*gorm.DB, string, bool) {
 	}
 	return nil, "", false
 }
+
+// allXOps: every (chain method, argument form) of the executed stream once, with random parameters.
+// genFork cycles through this list so that EVERY form is, in every run, applied on a chain forked from
+// a reusable handle whose other chains are then judged.
+func allXOps(r *lib.Rng) []*Op {
+	col := func() string { return lib.Pick(r, []string{"c1", "c2", "c3"}) }
+	n := func() int64 { return int64(r.Range(0, 6)) }
+	var ops []*Op
+	for _, k := range []string{"x_where", "x_or", "x_not"} {
+		for _, f := range condForms[1:] {
+			ops = append(ops, &Op{K: k, Names: []string{col()}, N: n(), Form: f})
+		}
+	}
+	for _, f := range []string{"", "named", "andtext", "eq"} {
+		ops = append(ops, &Op{K: "x_having", Names: []string{"c1"}, N: n() % 3, Form: f})
+	}
+	for _, f := range []string{"", "col", "orderby", "expr", "reorder"} {
+		ops = append(ops, &Op{K: "x_order", Names: []string{col()}, Re: r.Bool(), Form: f})
+	}
+	ops = append(ops, &Op{K: "x_group", Names: []string{col()}})
+	for _, nm := range [][]string{{"K4"}, {"K4", "C1"}, {"c1"}, {"id", "c2"}} {
+		ops = append(ops, &Op{K: "x_select", Names: nm})
+	}
+	for _, f := range []string{"slice", "qargs", "named", "mixed", "strslice", "star", "tstar", "exprthenslice"} {
+		ops = append(ops, &Op{K: "x_select", N: n(), Form: f})
+	}
+	for i := int64(0); i < 3; i++ {
+		ops = append(ops, &Op{K: "x_select_bad", Names: []string{col()}, N: i})
+	}
+	ops = append(ops, &Op{K: "x_omit", Names: []string{"C2", "K4"}}, &Op{K: "x_omit", Form: "comma"}, &Op{K: "x_omit", Form: "assoc"})
+	ops = append(ops, &Op{K: "x_distinct"}, &Op{K: "x_distinct", Names: []string{"c1"}})
+	for _, f := range []string{"locking", "onconflict", "onconflict2", "donothing", "returning", "returning1", "returningall", "expr", "modifier", "where", "notmulti", "set", "emptyset"} {
+		ops = append(ops, &Op{K: "x_clauses", N: n(), Form: f})
+	}
+	for _, f := range []string{"raw", "rel", "inner", "relcond", "relsel"} {
+		ops = append(ops, &Op{K: "x_joins", N: n(), Form: f})
+	}
+	for _, f := range []string{"", "cond", "fn", "all"} {
+		ops = append(ops, &Op{K: "x_preload", N: n(), Form: f})
+	}
+	for _, k := range []string{"x_attrs", "x_assign"} {
+		for _, f := range []string{"", "map"} {
+			ops = append(ops, &Op{K: k, N: n(), Form: f})
+		}
+	}
+	ops = append(ops, &Op{K: "x_mapcolumns"}, &Op{K: "x_set", N: n() + 1}, &Op{K: "x_instance_set", N: n() + 1}, &Op{K: "x_scopes", N: int64(r.Range(4, 12))}, &Op{K: "unscoped"})
+	for _, f := range []string{"", "named", "us"} {
+		ops = append(ops, &Op{K: "x_raw", N: n(), Form: f})
+	}
+	for _, t := range []string{"ts", "us", "empty", "expr", "alias", "main.ts", "ts tt"} {
+		ops = append(ops, &Op{K: "x_table", Names: []string{t}, N: n() % 4})
+	}
+	ops = append(ops, &Op{K: "x_model", Names: []string{"T"}}, &Op{K: "x_model", Names: []string{"U"}})
+	for _, v := range []int{-1, 0, 2} {
+		ops = append(ops, &Op{K: "limit", N: int64(v)}, &Op{K: "offset", N: int64(v)})
+	}
+	return ops
+}
+
+// genFork: a state-carrying reusable handle (any Session style); chains forked from it apply ONE
+// operation each - the i-th case takes the next `per` entries of allXOps - and are finished or abandoned;
+// between and after them the handle itself is judged with finishers that show conditions, ordering,
+// selection, joins, hooks, settings and bound values.
+func genFork(r *lib.Rng, i, per int) Input {
+	in := Input{Exec: true}
+	push := func(s Step) int { in.Steps = append(in.Steps, s); return len(in.Steps) }
+	all := allXOps(r)
+	m := lib.Pick(r, []string{"T", "T", "U"})
+	cur := push(Step{K: "derive", P: 0, Op: &Op{K: "x_model", Names: []string{m}}})
+	for k := r.Range(0, 3); k > 0; k-- {
+		cur = push(Step{K: "derive", P: cur, Op: all[r.Intn(len(all))]})
+	}
+	h := push(Step{K: "sess", P: cur, Sess: lib.Pick(r, []string{"plain", "plain", "ctx", "debug", "debug", "skiphooks", "queryfields", "preparestmt"})})
+	judge := func() {
+		f := lib.Pick(r, []*Fin{{K: "x_find", M: m}, {K: "x_find", M: m}, {K: "x_first", M: m}, {K: "x_count"},
+			{K: "x_create_dry", M: m}, {K: "x_update_dry", M: m, V: 3}, {K: "x_find", M: m, Dry: 1}, {K: "x_firstorinit", M: m}})
+		g := *f
+		push(Step{K: "finish", P: h, Fin: &g})
+	}
+	for j := 0; j < per; j++ {
+		c := push(Step{K: "derive", P: h, Op: all[(i*per+j)%len(all)]})
+		switch r.Intn(3) {
+		case 0: // abandoned
+		case 1:
+			push(Step{K: "finish", P: c, Fin: &Fin{K: "x_find", M: m}})
+		default:
+			push(Step{K: "finish", P: c, Fin: &Fin{K: lib.Pick(r, []string{"x_count", "x_first", "x_create_dry", "x_delete_dry"}), M: m}})
+		}
+		judge()
+	}
+	judge()
+	return in
+}
